@@ -33,6 +33,7 @@ func extraFacts(lf *leanFile) {
 	retryFacts(lf)
 	remoteFacts(lf)
 	referrersFlowFacts(lf)
+	capabilityFacts(lf)
 	refFacts(lf)
 	copyFacts(lf)
 }
